@@ -5,7 +5,10 @@ from lib import E, guarded
 RULE = ("correspondence: header pack/unpack over boundary+random ports/lengths/versions incl. out-of-range values, "
         "PDUs with matching and mismatching length fields, transport wrap, and transport recv over scripted sockets: "
         "every single and double cut of header+payload for short messages, random multi-splits down to 1-byte reads "
-        "for long ones, back-to-back messages, early EOF.  search: send() output and recv() result against the "
+        "for long ones, back-to-back messages, early EOF; k successive recv() calls on one transport object over 1..6 "
+        "messages (truncated / over-long streams); sessions of 1..5 send() calls (out-of-range ports, requests of "
+        "65535..65537 bytes, answers cut short, unsolicited trailing message) comparing results, unread bytes and "
+        "every sendall() argument.  search: send() output and recv() result against the "
         "extracted standard header.  non-trivial = distinct inputs that produced a value")
 ASSUMPTIONS = ["the operating system delivers what the schedule says (each read returns >= 1 byte unless the peer closed); "
                "timeouts and OS errors are outside the model", "socket.recv with a negative size raises (as CPython's does)"]
